@@ -56,7 +56,9 @@ def apply_unfolders(sid: str, unfolders: List[Callable]) -> List[Sid]:
         done = func(result)
         result = done
 
-    return sorted(set(result))
+    # Sids compare by string only: the type is used as tie-break, so that the order of Sids that share
+    # a string (and what do_uniquify keeps of them) does not depend on the iteration order of the set.
+    return sorted(set(result), key=lambda s: (str(s), s.type))
 
 
 @cache
